@@ -57,6 +57,14 @@ def model_ctor(ctx, N, ctor, got):
 
 
 def c_walk(ctx, args):
+    NP.set_layout(args[3] if len(args) > 3 else 'c')
+    try:
+        return _walk(ctx, args[:3])
+    finally:
+        NP.set_layout('c')
+
+
+def _walk(ctx, args):
     N, ctor, steps = args
     M = None if ctx.search else ctx.model
     try:
@@ -196,7 +204,7 @@ def run(ctx):
         ctor = rctor(ctx, rng, N)
         sl = [rstep(ctx, rng, N, True) for _ in range(rng.randint(3, steps))]
         has_meas = any(s[0] in ('measure', 'mlayer') for s in sl)
-        do(ctx, 'walk', [N, ctor, sl], nontrivial=('walk', it) if has_meas else None, sample=(it < 1))
+        do(ctx, 'walk', [N, ctor, sl, rng.choice(['c', 'c', 'c', 'strided', 'fortran', 'colslice'])], nontrivial=('walk', it) if has_meas else None, sample=(it < 1))
         ctx.res.count('ctor_' + ctor[0])
         for s in sl:
             ctx.res.count('step_' + s[0])
